@@ -47,6 +47,11 @@ CHECKS = {
     note="PARTIAL on the runtime: oracles are modelled as functions of the row's strings; wall-clock MCS time-outs under load and joblib/loky scheduling cannot be exhibited by the model (rows with conflicting recorded answers are reported timing_unstable). Additivity of statistics over partitions is checked by the oracle, not proved. Trusted: Coq kernel+vm_compute, recorders, joblib ordering (A8).",
     technique="Coq proof (write-back-by-id = map under the id invariant; row-local pipeline) + context-variation differential runs",
     design="7/C06"),
+ "C05": dict(
+    text="Machine-checked proof (Coq). The full statement (one row per input row, in order, for every mixture of valid and malformed strings) is REFUTED on the faithful model and on the code (C05_refuted_filtered: a row whose side does not parse is dropped, later rows shift, the CLI's positional zip pairs pass-through values with the wrong reaction; C05_refuted_batch_lost: a string without exactly one '>>' raises in preprocess and its whole batch is lost) -- both are recorded known findings. Proved (C05_partial, C05_cli_passthrough_aligned, chunk lemmas): for every oracle/database/threshold, every batch size >= 1 and every list of well-formed rows the result has exactly one row per input in input order, each describing its input, and the CLI's pass-through pairing is aligned; DataLoader chunking loses/reorders nothing. Correspondence: all positions of every malformed kind in lists of length 1..4/5 x all batch sizes, list/dict/CSV/JSON sources and the CLI; string runs replayed through Model/Batch.rebalance over Model/Pipeline.run inside Coq.",
+    note="Known findings C05/unparsable-filtered, C05/can_parse-raises, C05/cli-passthrough-misaligned are genuine defects recorded, not repaired (what a result row for an unparsable input should contain is a design decision). Any other loss/shift of rows is a VIOLATION. Trusted: Coq kernel+vm_compute, recorders, pandas/csv/json readers as exercised.",
+    technique="Coq proof (chunks/concat induction + row-local pipeline) with refuted/partial split + exhaustive malformed-position correspondence",
+    design="7/C05"),
 }
 NA = []
 def main():
